@@ -141,11 +141,73 @@ def scn_native_patterns(T, case):
         T.prove("C14.native.optimizer_step_ends_with_a_documented_code", rc in (OptimizerExitCode.TOO_FEW_REALIZATIONS, OptimizerExitCode.MAX_FUNCTIONS_REACHED, OptimizerExitCode.OPTIMIZER_STEP_FINISHED))
 
 
+# ------------------------------------------------------------------------------------ raises-clause of EnsembleEvaluator.calculate
+def cases_calculate(tier):
+    import itertools
+
+    for R in (2, 3):
+        for est in ("mean", "stddev"):
+            for mask in itertools.product((False, True), repeat=R):
+                for ms in (0, 1, R):
+                    if tier == "quick" and R == 3 and (ms == 1 or sum(mask) == 1) and est == "mean":
+                        continue
+                    yield "R%d/%s/%s/min_success=%d" % (R, est, "".join("F" if f else "o" for f in mask), ms), {"R": R, "est": est, "failed": list(mask), "ms": ms}
+
+
+def scn_calculate(T, case):
+    """The step-level exploration (stepflow) uses EnsembleEvaluator.calculate by contract.  This is that contract, discharged on
+    the real chain: for every failure mask, threshold (0 included) and estimator, a function evaluation either returns one well-shaped
+    result per vector - functions None exactly when fewer than min_success realizations succeeded, all-NaN vectors of the configured
+    lengths when nothing succeeded - or raises OptimizationAborted(TOO_FEW_REALIZATIONS), and that exactly when the stddev estimator is
+    left with fewer than two successful realizations of non-zero weight.  Never another exception."""
+    import numpy as np
+
+    from contracts import harness as H
+    from ropt.enums import OptimizerExitCode
+    from ropt.exceptions import OptimizationAborted
+
+    R, J, K, N = case["R"], 1, 1, 2
+    failed = case["failed"]
+    ch = H.Chain(T)
+    w = T.const(np.array([0.5, 0.5, 0.0][:R] if R == 3 else [0.25, 0.75]))
+    nanrow = np.array(failed, dtype=bool)
+    O = T.real("O", (R, J), nan=np.repeat(nanrow[:, None], J, axis=1))
+    C = T.real("C", (R, K))
+    cfg = H.make_config(T, R, J, K, N, weights=w, ow=T.const(np.array([1.0])), min_success=case["ms"])
+    sev = H.ScriptedEvaluator(T, ch, lambda v, r, p, k: O[r], lambda v, r, p, k: C[r])
+    ev = H.make_evaluator(T, ch, cfg, sev, estimators=[H.estimator(ch, case["est"])])
+    nok = R - sum(failed)
+    weighted_ok = sum(1 for r in range(R) if not failed[r] and float(np.asarray(w)[r]) > 0)
+    try:
+        (res,) = ev.calculate(T.real("x", (N,)), compute_functions=True, compute_gradients=False)
+    except OptimizationAborted as exc:
+        T.prove("C14.calculate.abort_code_is_too_few_realizations", exc.exit_code == OptimizerExitCode.TOO_FEW_REALIZATIONS)
+        T.prove("C14.calculate.aborts_only_when_the_stddev_estimator_has_fewer_than_two_weighted_successes",
+                case["est"] == "stddev" and weighted_ok < 2 and nok >= case["ms"] and nok > 0)
+        return
+    except (ZeroDivisionError, AssertionError, IndexError, ValueError, TypeError) as exc:
+        T.fail("C14.calculate.no_internal_exception", "%s: %s" % (type(exc).__name__, exc))
+        return
+    if nok < case["ms"]:
+        T.prove("C14.calculate.too_few_successes_are_reported_as_missing_functions", res.functions is None)
+        return
+    T.prove("C14.calculate.functions_present_when_enough_realizations_succeed", res.functions is not None)
+    if res.functions is None:
+        return
+    # (no success of non-zero weight at all leaves the renormalisation 0/0: outside the quantifiers of C01/C03, not required here)
+    T.prove("C14.calculate.too_few_weighted_successes_for_the_estimator_always_abort", not (case["est"] == "stddev" and weighted_ok == 1))
+    T.prove("C14.calculate.function_vectors_have_the_configured_lengths", tuple(res.functions.objectives.shape) == (J,) and tuple(res.functions.constraints.shape) == (K,)
+            and tuple(np.shape(res.functions.weighted_objective)) == ())
+    if nok == 0:
+        T.prove("C14.calculate.nothing_succeeded_gives_nan_functions", bool(T.np.isnan(res.functions.objectives[0])) and bool(T.np.isnan(res.functions.constraints[0])))
+
+
 SCENARIOS = [
     Scenario("constraint_info_raises_clause", scn_constraint_info, cases_constraint_info, {"quick": 3, "thorough": 20}),
     Scenario("native_failure_patterns", scn_native_patterns, cases_native_patterns, {"quick": 1, "thorough": 1}),
     Scenario("step_exception_flow", scn, stepflow.cases, {"quick": 10, "thorough": 100}),
     Scenario("estimator_raises_clause", scn_estimator, cases_estimator, {"quick": 10, "thorough": 100}),
+    Scenario("calculate_raises_clause", scn_calculate, cases_calculate, {"quick": 3, "thorough": 20}),
 ]
 
 MANIFEST = {
